@@ -16,8 +16,10 @@ import time
 
 VERIF = os.path.dirname(os.path.dirname(os.path.abspath(__file__)))
 SPEC = os.path.join(VERIF, "spec")
-EVID = os.path.join(VERIF, "evidence")
-REPLAYS = os.path.join(VERIF, "replays")
+# development runs against a scratch worktree (harness/seedpar.py) redirect
+# their output; the registered commands never set these variables
+EVID = os.environ.get("VERIF_EVIDENCE_DIR", os.path.join(VERIF, "evidence"))
+REPLAYS = os.environ.get("VERIF_REPLAY_DIR", os.path.join(VERIF, "replays"))
 REPO = os.environ.get("EMG3D_REPO", "/repo")
 TLA_CP = ("/opt/veriftools/tla/tla2tools.jar:"
           "/opt/veriftools/tla/CommunityModules-deps.jar")
